@@ -33,6 +33,9 @@ HORIZON = 40
 TRAJ = {"never": None, "from4": 4, "from12": 12}
 
 
+SIMPLE = ("Mark", "Wait", "End block", "End blocks")      # (UOD commands are started by their line and complete on their own later)
+
+
 def check_item(item):
     forest, traj = item
     lines = pgen.to_lines(forest)
@@ -102,6 +105,12 @@ def check_item(item):
                 # End block / End blocks cut the visit of everything that follows in the body; nothing follows them
                 probs.append((f"C02:visited-before-predecessor-ended:{li['name']}-after-{prev['name']}",
                               f"line {nid} first visited at tick {rec[nid]['first_visit']} but the visit of {prev['id']} ended at {pr['end_visit']}"))
+            if (pr is not None and pr["first_visit"] >= 0 and not errors and prev["name"] in SIMPLE
+                    and not any(nm == "completed" and t_ <= rec[nid]["first_visit"] for nm, t_ in pr["states"])):
+                # the predecessor is a plain instruction: it must have *completed* (not merely been left) before this line is visited
+                probs.append((f"C02:visited-before-predecessor-completed:{li['name']}-after-{prev['name']}",
+                              f"line {nid} first visited at tick {rec[nid]['first_visit']} but its predecessor {prev['id']} ({prev['name']}) "
+                              f"never completed before that: {pr['states']}"))
         if li["parent"] is not None and info[li["parent"]]["name"] in ("Block", "Watch", "Alarm"):
             par = rec.get(info[li["parent"]]["id"])
             if par is None or not par["started"] or min(par["started"]) > rec[nid]["first_visit"]:
